@@ -190,14 +190,8 @@ def explore(ctx, scale=1.0):
             if want != texts:
                 ctx.violation("message-key", f"messages {dict(texts)} do not name the failing keywords / objects {dict(want)}", dict(rep, errors=[[list(e.absolute_path), e.validator] for e in errors][:8]))
                 continue
-            distinct = {g[0]: g for g in faults}.values()      # two object-level faults on one object are one schema error
-            for f in distinct:
-                if texts[f[1]] < sum(1 for g in distinct if g[1] == f[1]) and errors:
-                    # the fault may be no violation for this keyword (e.g. a number where any number is allowed): then jsonschema agrees
-                    n_ind = sum(1 for e in errors)
-                    if n_ind >= len(faults):
-                        ctx.violation("fault-not-reported", f"injected {f[0]} but only {texts[f[1]]} message(s) {f[1]!r}", dict(rep, messages=dict(texts)))
-                        break
+            # (whether an injected value is a violation at all is decided by the independent validator above: the
+            #  message multiset must equal the multiset the reported errors call for — nothing is assumed about the fault)
             # ---- case, hidden keys, lists ----
             if rng.random() < .5:
                 up = recase(d, rng)
